@@ -72,9 +72,15 @@ NOT_STRICT = {
 }
 # planners exempt from the strict form whose reported path *vertices* are nevertheless states they validated one by one
 # (sampled valid states, or the `lastValid` state of a 3-argument checkMotion): an invalid vertex is a failure (clause
-# `vertex`).  Not in this list: PDST (split points), AnytimePathShortening (simplifier's interpolated states), RRT /
-# RRTConnect with intermediate states (O1), the multilevel planners.
-VERTEX_VALID = {"KPIECE1", "BKPIECE1", "LBKPIECE1", "STRIDE", "RLRT", "BiRLRT", "EITstar", "EIRMstar"}
+# `vertex`).  Not in this list: PDST (split points), AnytimePathShortening (simplifier's interpolated states), the
+# multilevel planners.  RRT / RRTConnect with intermediate states ARE in it (round 7, F110): the flag is documented as
+# adding "the intermediate states generated along motions" - the states the motion validator generated and looked at -
+# so every tree vertex, hence every path state, is a state that was answered valid; PathGeometric::check() (the
+# library's own definition of a valid path, an anchor of this property) fails on a path with an invalid state.  Only the
+# vertices are demanded, not a re-run of checkMotion on the sub-pairs: those are pieces of ONE validated motion, not
+# individually validated motions, and validSegmentCount of a piece of length ~ longestValidSegment is 1 or 2 by rounding.
+VERTEX_VALID = {"KPIECE1", "BKPIECE1", "LBKPIECE1", "STRIDE", "RLRT", "BiRLRT", "EITstar", "EIRMstar",
+                "RRT+intermediate", "RRTConnect+intermediate"}
 MULTITHREADED = {"pRRT", "pSBL", "CForest", "AnytimePathShortening"}
 # The (asymmetric) Dubins space has hasSymmetricInterpolate() == false: the curve from b to a is not the reverse of the
 # curve from a to b.  Which planners are run on it is derived from what their own source does about direction:
@@ -453,6 +459,30 @@ def gen_short_motion(r, wall):
     p = Problem("rv", lo, hi, d, [(lo1, hi1), (lo2, hi2)], res, [s], g, max(2.0 * rng, 0.04 * ext), "RRT", 0, 0, 0, rng=rng,
                 tag="short-motion:" + wall)
     return p
+
+
+def gen_interm(r):
+    """the "intermediate-states" class (RRT / RRTConnect with intermediate_states=1): a wall thinner than the resolution
+    length and motions several valid segments long, so that a motion may legitimately step over the wall between two of
+    its j/n check points - the states then ADDED to the tree must be the states that were checked, not other points of
+    the same motion (F110: getMotionStates is handed the segment count as the number of interior states and returns the
+    j/(n+1) points, which nobody looked at)."""
+    d = r.choice([2, 2, 3])
+    off = r.choice([0.0, 0.0, -2.0])
+    lo, hi = [off] * d, [off + 1.0] * d
+    res = r.choice([0.03, 0.05, 0.08])
+    lvs = res * math.sqrt(d)
+    rng = r.uniform(2.5, 7.0) * lvs
+    boxes = []
+    for k in range(r.choice([1, 2, 3])):
+        w = r.uniform(0.35, 0.9) * lvs
+        x = off + r.uniform(0.3, 0.7)
+        boxes.append(([x - w / 2] + [off - 5.0] * (d - 1), [x + w / 2] + [off + 5.0] * (d - 1)))
+    s = [off + r.uniform(0.1, 0.9) for _ in range(d)]
+    g = [off + r.uniform(0.1, 0.9) for _ in range(d)]
+    s[0], g[0] = off + r.uniform(0.05, 0.2), off + r.uniform(0.8, 0.95)
+    return Problem("rv", lo, hi, d, boxes, res, [s], g, r.choice([0.0, 0.05, 2.0 * lvs]), "RRT", 0, 0, 0, rng=rng,
+                   interm=1, tag="intermediate-states")
 
 
 def gen_dubins_directed(r):
@@ -1221,6 +1251,10 @@ def plan_quick(ck, names):
         for k in range(8 if name in DIRECTION_AWARE else 2):
             ow = gen_oneway(r, reverse=(k % 4 != 3))
             jobs.append(ow.clone(planner=name, seed=r.below(100000), budget=6000, pollcap=pollcap_for(name, 6000)))
+        if name in ("RRT", "RRTConnect"):
+            for k in range(10):
+                im = gen_interm(r)
+                jobs.append(im.clone(planner=name, seed=r.below(100000), budget=3000, pollcap=pollcap_for(name, 3000)))
         if name in DIRECTION_AWARE:
             for k in range(60 if name == "BiTRRT" else 30):
                 dd = gen_dubins_directed(r)
@@ -1257,6 +1291,10 @@ def plan_thorough(ck, names):
         for k in range(40 if name in DIRECTION_AWARE else 8):
             ow = gen_oneway(r, reverse=(k % 4 != 3))
             jobs.append(ow.clone(planner=name, seed=r.below(100000), budget=6000, pollcap=pollcap_for(name, 6000)))
+        if name in ("RRT", "RRTConnect"):
+            for k in range(60):
+                im = gen_interm(r)
+                jobs.append(im.clone(planner=name, seed=r.below(100000), budget=3000, pollcap=pollcap_for(name, 3000)))
         if name in DIRECTION_AWARE:
             for k in range(150):
                 dd = gen_dubins_directed(r)
